@@ -26,7 +26,8 @@ def run_bounded(script, tier, seed, extra_env=None):
     if extra_env:
         env.update(extra_env)
     t0 = time.time()
-    p = subprocess.run([PY_REAL, os.path.join(VERIF, 'bounded', script), tier], capture_output=True, text=True,
+    script, *sargs = script.split()
+    p = subprocess.run([PY_REAL, os.path.join(VERIF, 'bounded', script), tier] + sargs, capture_output=True, text=True,
                        env=env, cwd=os.path.join(VERIF, 'bounded'))
     out = [l for l in p.stdout.splitlines() if l.startswith('@@BOUNDED@@')]
     if p.returncode != 0 or not out:
@@ -54,7 +55,8 @@ def classify(results, pid):
             groups.setdefault(g, []).append(r)
             continue
         if o.kind == 'K':
-            R.setdefault('known_obls', []).append(r)
+            if pid in o.props:
+                R.setdefault('known_obls', []).append(r)
             continue
         if r.verdict == 'unsat':
             R['discharged'].append(r)
@@ -126,7 +128,7 @@ def run_check(pid, tier, seed, PROPS, verbose=False):
     z3_ms, cvc5_ms = (15000, 60000) if tier == "quick" else (60000, 240000)
     eng, results, t_sym, t_solve = verify_contracts(reg, set(sel), repo, z3_ms, cvc5_ms)
     R = classify(results, pid)
-    known = [k for k in load_known() if k['property'] == pid and k.get('status', 'open') == 'open']
+    known = [k for k in load_known() if pid in k.get('properties', []) and k.get('status', 'open') == 'open']
     violations = []      # (description, replay text, cls)
     known_hits = {}
     undecided = []
@@ -134,7 +136,7 @@ def run_check(pid, tier, seed, PROPS, verbose=False):
     # ---- bounded stand-in (also the search for concrete failing inputs)
     bounded = []
     for script in cfg.get('bounded', []):
-        b = run_bounded(script, tier, seed)
+        b = run_bounded(script + (' ' + pid if script == 'parse.py' else ''), tier, seed)
         bounded.append(b)
         if b.get('error'):
             undecided.append('bounded sweep %s failed to run: %s' % (script, b['error'][-300:]))
@@ -153,6 +155,12 @@ def run_check(pid, tier, seed, PROPS, verbose=False):
         if k is not None:
             ded_known.append((k, r))
             known_hits.setdefault(k['id'], (k, None))
+    for r in R.get('known_obls', []):          # unrestricted form of a clause with an open finding
+        k = next((k for k in known if k['id'] == r.obl.meta.get('finding')), None)
+        if r.verdict == 'sat' and k is not None:
+            known_hits.setdefault(k['id'], (k, None))
+        elif r.verdict == 'sat' and k is None:
+            R['p_failed'].append(r)     # the finding is not listed as open for this property: report it
     p_open = [r for r in R['p_failed'] if not any(r is x[1] for x in ded_known)]
     a_open = [r for r in R['a_failed'] if not any(r is x[1] for x in ded_known)]
     have_input = bool(violations)
@@ -196,9 +204,11 @@ def run_check(pid, tier, seed, PROPS, verbose=False):
     for ln in lines:
         print(ln)
 
-    n_obl = len([r for r in results if r.obl.kind != 'V'])
+    n_obl = len([r for r in results if r.obl.kind not in ('V', 'K')])
     n_dis = len(R['discharged'])
     level = cfg['level'] if (not undecided and n_obl == n_dis) else 'other'
+    if level == 'proof' and any(c.trusted for c in reg.all_contracts() if cfg['select'](c)):
+        level = 'other'        # an assumed contract inside the closure: not a proof
     if known_hits and level == 'proof':
         level = 'other'
     ev = evidence(pid, tier, seed, level, cfg, eng, results, R, bounded, known_hits, undecided, violations, sel,
@@ -234,7 +244,9 @@ def evidence(pid, tier, seed, level, cfg, eng, results, R, bounded, known_hits, 
         if q in repo.funcs:
             funcs[k] = {'sha': repo.funcs[q].sha, 'line': repo.funcs[q].lineno,
                         'status': 'out-of-reach: ' + eng.unsupported[k] if k in eng.unsupported else 'verified-against-contract'}
-    n_obl = len([r for r in results if r.obl.kind != 'V'])
+    n_obl = len([r for r in results if r.obl.kind not in ('V', 'K')])
+    from contracts import load_all as _la
+    assumed = sorted({'ASSUMED contract (body not verified): %s' % c.key for c in _la().all_contracts() if c.trusted})
     samples = []
     for r in results:
         if r.obl.kind == 'P' and pid in r.obl.props and len(samples) < 12:
@@ -245,7 +257,7 @@ def evidence(pid, tier, seed, level, cfg, eng, results, R, bounded, known_hits, 
         'p_clauses_of_this_property': len([r for r in results if r.obl.kind == 'P' and pid in r.obl.props]),
         'vacuity_guards_passed': R['guards_ok'], 'vacuity_guards_failed': R['vacuous'],
         'checker_cmd': 'python3-vt check %s --tier %s' % (pid, tier),
-        'trusted_base': cfg.get('trusted_base', []) + COMMON_TRUSTED,
+        'trusted_base': cfg.get('trusted_base', []) + COMMON_TRUSTED + assumed,
         'backends': by_backend, 'solver_secs': round(secs, 2), 'solver_queries': queries,
         'symbolic_execution_secs': round(t_sym, 2), 'functions_under_contract': funcs,
         'refuted': [r.obl.name for r in R['p_failed'] + R['a_failed']],
